@@ -458,6 +458,8 @@ pub fn c07(tier: Tier) -> PropertyDef {
             sub("table_short", tier.pick(600_000, 8_000_000), messy(3, 40), c07_check).rates(&[("merge_happened", 0.02), ("has_resume", 0.02), ("periodic_refresh_reached", 0.3), ("single_ecu", 0.2)]).boxed(),
             sub("table_long", tier.pick(40_000, 500_000), messy(2, 400), c07_check).rates(&[("gt20_lifecycles", 0.1), ("has_resume", 0.2), ("resume_start_le_origin_start", 0.02)]).boxed(),
             crate::props::binsubs::c07_sub(tier),
+            crate::props::binsubs::c07_remote_sub(tier),
+            crate::props::binsubs::c07_remote_strict_sub(),
             sub("repo_traces", tier.pick(3_000, 60_000), repo_strategy(), repo_traces).rates(&[("perturbed", 0.5)]).shrink_iters(200).boxed(),
         ],
         workers: 16,
